@@ -20,7 +20,7 @@ git apply $OUT/patch.diff
 echo "demo exit with=$W without=$WO"
 cd /repo && git apply $OUT/patch.diff || { echo "patch does not apply to /repo"; exit 2; }
 DET=""
-PROPS=$(python3 -c "import json;print(' '.join(c['property_id'] for c in json.load(open('/verif/MANIFEST.json'))['checks']))")
+PROPS=${CHECKS:-$(python3 -c "import json;print(' '.join(c['property_id'] for c in json.load(open('/verif/MANIFEST.json'))['checks']))")}
 mkdir -p /tmp/seedrun; rm -f /tmp/seedrun/*
 echo $PROPS | tr ' ' '\n' | xargs -P 4 -I{} bash -c "cd /verif && ./bin/govc check --property {} > /tmp/seedrun/{}.out 2>&1"
 for P in $PROPS; do
